@@ -394,6 +394,18 @@ def cmd_check(args):
             for k in ei.get("known", []):
                 known.append(k)
 
+    # a Verus failure on a function that also carries a Kani contract inherits Kani's concrete counterexample
+    kani_cases = {}
+    for (u, f) in confirmed:
+        if f.get("kind") == "kani" and f.get("case"):
+            kani_cases[f.get("fn")] = f
+    for (u, f) in confirmed:
+        if f.get("kind") != "kani" and not f.get("case"):
+            short = re.sub(r"^impl(<[^>]*>)?\s*", "", f.get("fn") or "")
+            short = short.split(" for ")[-1]
+            if short in kani_cases:
+                f["case"] = kani_cases[short]["case"]
+                f["counterexample"] = "from Kani harness for %s" % short
     wall = round(time.time() - t0, 2)
     lines = []
     rc = 0
